@@ -30,32 +30,32 @@ def client_harness():
     return core.build_harness("h_cs104c", ["h_cs104c.c"], whitebox_of=("cs104_connection",))
 
 
-def thr_harness():
+def thr_harness(name="h_life_thr"):
     """h_life_thr: the real THREADED server (CS104_Slave_start / stop) on the simulated HAL.  simhal's server socket
     allocation is too small for the library's Socket_destroy((Socket) serverSocket) in serverThread, so the harness
     supplies TcpServerSocket_create and simhal's is renamed away (same device as pylib/props/c17.py)."""
     objdir = core.build_clib()
-    src = core.VERIF / "harness" / "h_life_thr.c"
+    src = core.VERIF / "harness" / (name + ".c")
     sim = core.VERIF / "harness" / "simhal" / "simhal.c"
     hh = core.file_hash([src, sim, core.VERIF / "harness" / "simhal" / "simhal.h"])
     outdir = core.CACHE / "c18" / objdir.name
-    exe = outdir / ("h_life_thr-" + hh)
-    with core.Lock("hbuild-h_life_thr"):
+    exe = outdir / (name + "-" + hh)
+    with core.Lock("hbuild-" + name):
         if exe.exists():
             return exe
         outdir.mkdir(parents=True, exist_ok=True)
-        for old in outdir.glob("h_life_thr-*"):
+        for old in outdir.glob(name + "-*"):
             old.unlink()
         simo = outdir / "simhal_thr.o"
         rc, out = core.sh(["gcc", "-c", *core.SAN_FLAGS, *core.inc_flags(), "-DTcpServerSocket_create=simhal_unused_TcpServerSocket_create",
                            str(sim), "-o", str(simo)])
         if rc:
-            raise RuntimeError("simhal does not build for h_life_thr:\n" + out[-2000:])
+            raise RuntimeError("simhal does not build for " + name + ":\n" + out[-2000:])
         objs = [str(o) for o in sorted(objdir.glob("*.o")) if o.stem != "cs104_slave"]
         srcdirs = ["-I" + str(core.LIBROOT / d) for d in ("src/iec60870/cs104", "src/iec60870", "src/common")]
         rc, out = core.sh(["gcc", *core.SAN_FLAGS, *core.inc_flags(), *srcdirs, str(src), str(simo), *objs, "-o", str(exe), "-lpthread", "-lm"])
         if rc:
-            raise RuntimeError("h_life_thr does not build:\n" + out[-3000:])
+            raise RuntimeError(name + " does not build:\n" + out[-3000:])
     return exe
 
 
